@@ -348,6 +348,9 @@ class Ctx:
                 if mm:
                     add(self.len_sym(mm.group(1)) - Poly.const(1) - Poly.sym(name))
                 add(Poly.sym(name))
+            if name.startswith("Option::<T>::unwrap_or(Iterator::position("):
+                for f_ in self.position_or_default(name, ge, other):
+                    add(f_)
             m = re.match(r"^<impl u(\d+)>::from_str_radix\(\[(.*)\.\.(.*)\),(\d+)\)\?$", name)
             if m:
                 a_, b_ = self.poly_by_str(m.group(2)), self.poly_by_str(m.group(3))
@@ -412,6 +415,49 @@ class Ctx:
                 m = re.match(r"^(?:Vec::<T, A>|<impl \[T\]>|<impl str>)::is_empty\((.*)\)$", a[1])
                 if m:
                     add(-self.len_sym(m.group(1)))
+        return out
+
+    def position_or_default(self, name, ge, other):
+        """U = S.iter().position(pred).unwrap_or(D):  lo <= U <= len(S)-1 when D lies in that range, where lo = 1 if
+        pred(S[0]) is refuted by a guard on the path (pred = `A < x.F`, guard = not (A < S[0].F)), else 0"""
+        sy = self.sy
+        t = sy.sym_terms.get(name)
+        if t is None:
+            return []
+        t = unmut(t)
+        if not (t[0] == "call" and short(t[1]) == "Option::<T>::unwrap_or" and len(t[2]) == 2):
+            return []
+        pos, dflt = unmut(t[2][0]), t[2][1]
+        if not (pos[0] == "call" and short(pos[1]) == "Iterator::position" and len(pos[2]) == 2):
+            return []
+        it = unmut(pos[2][0])
+        if not (it[0] == "call" and short(it[1]) == "<impl [T]>::iter" and len(it[2]) == 1):
+            return []
+        seq = it[2][0]
+        ln = seq_len_poly(self, seq)
+        D = sy.poly(dflt)
+        if ln is None or D is None:
+            return []
+        lo = 0
+        mname = re.match(r"^Option::<T>::unwrap_or\(Iterator::position\(mut\(<impl \[T\]>::iter\((.*)\)\),\|x\| (.*) Lt x\.(\d+)\),", name)
+        if mname:
+            S_, A_, F_ = mname.group(1), mname.group(2), mname.group(3)
+            # the sequence name must be balanced (regex is greedy): check against the canonical name of the term
+            if S_ == sy.arg_name(seq):
+                want = "Index::index(%s,0).%s" % (S_, F_)
+                for a in other:
+                    if a[0] == "fcmp" and a[1] == "not Lt" and a[2] == A_ and a[3] == want:
+                        lo = 1
+                    if a[0] == "rel":
+                        pass
+        out = []
+        pr = Prover(list(ge), self.box(list(ge) + [ln, D]))
+        ok_hi, _ = pr.prove_ge0(ln - Poly.const(1) - D)
+        if ok_hi:
+            out.append(ln - Poly.const(1) - Poly.sym(name))
+        ok_lo, _ = pr.prove_ge0(D - Poly.const(lo))
+        if ok_lo:
+            out.append(Poly.sym(name) - Poly.const(lo))
         return out
 
     def clears_top_bit_loop(self, loop_sym, need_single_push=False):
